@@ -633,6 +633,9 @@ def rule_error_discipline(ctx: Ctx, clause: str, rule="DU.error-discipline", min
                     continue
                 seen.add(key)
                 err = ast.dump(ast.Subscript(value=c, slice=ast.Constant(value=0), ctx=ast.Load()))
+                v = p.value
+                if isinstance(v, ast.Tuple) and len(v.elts) == 2 and v.elts[1] is s and ast.dump(v.elts[0]) == err:
+                    continue  # (r[0], r[1]): the callee's pair handed on whole, the same as `return callee(...)`
                 st = ast.dump(s)
                 tested = False
                 for a, pol in p.facts():
@@ -720,7 +723,14 @@ def state_lineage(v: Optional[ast.AST], producers: Dict[str, int]) -> List[ast.C
                 out.append(v)
                 v = _state_arg(v, producers[nm])
                 continue
-            return out
+            # a callee the producer table does not know (ambiguous name such as `update`): assume it threads the
+            # state it is given, and follow the argument that has a lineage of its own
+            best: List[ast.Call] = []
+            for a in list(v.args) + [k.value for k in v.keywords]:
+                la = state_lineage(a, producers)
+                if len(la) > len(best):
+                    best = la
+            return out + best
         if isinstance(v, ast.Tuple) and len(v.elts) == 2:
             v = v.elts[1]
             continue
@@ -732,7 +742,169 @@ def state_lineage(v: Optional[ast.AST], producers: Dict[str, int]) -> List[ast.C
     return out
 
 
-def rule_state_lineage(ctx: Ctx, clause: str, funcs: Iterable[Func], rule="DU.state-lineage"):
+# ------------------------------------------------------------------------------------------ forward reachability
+STATE_CUR_METHODS = {"exit", "update", "_perform_update", "_default_terminal_state", "_has_reached_terminal_state_condition"}
+_REACH_CACHE: Dict[int, Dict] = {}
+
+
+def _reach_tables(repo: Repo):
+    t = _REACH_CACHE.get(id(repo))
+    if t is None:
+        by_name: Dict[str, List[Func]] = {}
+        for f in repo.all_funcs():
+            if f.relpath.startswith("nrel/hive/resources"):
+                continue
+            by_name.setdefault(f.name, []).append(f)
+        state_names = {sc.name for sc in states.state_classes(repo)}
+        t = _REACH_CACHE[id(repo)] = {"by_name": by_name, "state_names": state_names, "poss": {}, "calls": {}}
+    return t
+
+
+def _is_state_method(t, f: Func) -> bool:
+    top = f
+    while top.outer is not None:
+        top = top.outer
+    return top.cls is not None and top.cls.name in t["state_names"]
+
+
+def _arity_ok(f: Func, call: ast.Call) -> bool:
+    """Could `call` be a call of `f`, by argument count alone? (sound narrowing of name resolution)"""
+    if any(isinstance(a, ast.Starred) for a in call.args) or any(k.arg is None for k in call.keywords):
+        return True
+    a = f.node.args
+    if a.vararg is not None and a.kwarg is not None:
+        return True
+    pos = [x.arg for x in a.posonlyargs + a.args]
+    bound = f.cls is not None and pos and pos[0] in ("self", "cls", "mcs") and not any(
+        isinstance(d, ast.Name) and d.id == "staticmethod" for d in f.node.decorator_list)
+    # a method called through the class (`VehicleState.default_update(sim, env, self)`) passes self explicitly: allow both
+    n = len(call.args) + len(call.keywords)
+    total = len(pos) + len(a.kwonlyargs)
+    required = len(pos) - len(a.defaults) + sum(1 for d in a.kw_defaults if d is None)
+    lo, hi = required, (10 ** 6 if (a.vararg is not None or a.kwarg is not None) else total)
+    if bound:
+        return lo - 1 <= n <= hi
+    return lo <= n <= hi
+
+
+def _local_state_class(t, site_fn: Func, recv: ast.AST) -> Optional[str]:
+    """`K.build(...)` / `K(...)` with K an activity class, directly or through a local assigned exactly once."""
+    def klass(e):
+        if isinstance(e, ast.Call):
+            d = dotted(e.func) or ""
+            head = d.split(".")[0]
+            if head in t["state_names"] and (d == head or d == head + ".build"):
+                return head
+        return None
+    k = klass(recv)
+    if k is not None:
+        return k
+    if isinstance(recv, ast.Name):
+        vals = []
+        for n in ast.walk(site_fn.node):
+            if isinstance(n, ast.Assign):
+                for tg in n.targets:
+                    for x in ast.walk(tg):
+                        if isinstance(x, ast.Name) and x.id == recv.id:
+                            vals.append(n.value if tg is x or isinstance(tg, ast.Name) else None)
+            elif isinstance(n, (ast.AnnAssign, ast.AugAssign, ast.NamedExpr)) and isinstance(getattr(n, "target", None), ast.Name) and n.target.id == recv.id:
+                vals.append(getattr(n, "value", None) if isinstance(n, ast.AnnAssign) else None)
+        if recv.id in site_fn.params:
+            return None
+        if len(vals) == 1 and vals[0] is not None:
+            return klass(vals[0])
+    return None
+
+
+def call_targets(repo: Repo, site_fn: Func, call: ast.Call) -> List[Func]:
+    """Name-resolved targets of a call. A call of a method of the vehicle's CURRENT activity (exit / update / ...) is
+    narrowed to the activity classes that can be current where `site_fn` runs; an `enter` on an activity goes to every
+    activity class (the next activity is not bounded)."""
+    t = _reach_tables(repo)
+    nm = call.func.attr if isinstance(call.func, ast.Attribute) else getattr(call.func, "id", None)
+    if nm is None:
+        return []
+    targets = [f for f in t["by_name"].get(nm, []) if _arity_ok(f, call)]
+    if not targets:
+        return []
+    if isinstance(call.func, ast.Attribute) and (nm in STATE_CUR_METHODS or nm == "enter"):
+        recv = flow.dump(call.func.value)
+        built = _local_state_class(t, site_fn, call.func.value)
+        if built is not None:
+            return [f for f in targets if f.cls is not None and f.cls.name == built] or targets
+        if recv in ("self", "cls"):
+            looks_like_state = _is_state_method(t, site_fn) or (site_fn.cls is not None and site_fn.cls.name in ("VehicleStateABC", "VehicleState"))
+        else:
+            looks_like_state = recv.endswith(("vehicle_state", "next_state", "prev_state", "_state", "state")) and not recv.endswith(("sim_state", "simulation_state", "driver_state")) \
+                or recv.startswith(tuple(x + "." for x in t["state_names"])) or recv.startswith(tuple(x + "(" for x in t["state_names"]))
+        st = [f for f in targets if _is_state_method(t, f) or (f.cls is not None and f.cls.name in ("VehicleStateABC", "VehicleState"))]
+        if not looks_like_state:
+            targets = [f for f in targets if f not in st]  # a Map / a simulation update / a driver: not an activity
+        else:
+            if st:
+                targets = st
+                if nm in STATE_CUR_METHODS:
+                    key = (site_fn.relpath, site_fn.qualname)
+                    if key not in t["poss"]:
+                        t["poss"][key] = possible_current_classes(repo, site_fn)
+                    poss = t["poss"][key]
+                    if poss is not None:
+                        targets = [f for f in targets if f.cls is None or f.cls.name in poss or f.cls.name in ("VehicleStateABC", "VehicleState")]
+    return targets
+
+
+def _calls_of(repo: Repo, f: Func) -> List[ast.Call]:
+    t = _reach_tables(repo)
+    key = (f.relpath, f.qualname)
+    if key not in t["calls"]:
+        t["calls"][key] = [n for n in ast.walk(f.node) if isinstance(n, ast.Call)]
+    return t["calls"][key]
+
+
+def reachable_funcs(repo: Repo, roots: Iterable[Func], limit: int = 1500) -> Optional[Set[Func]]:
+    """Functions reachable from `roots` over name-resolved calls (see call_targets). None when the bound is exceeded."""
+    seen: Set[Func] = set()
+    work = list(roots)
+    while work:
+        f = work.pop()
+        if f in seen:
+            continue
+        seen.add(f)
+        if len(seen) > limit:
+            return None
+        for c in _calls_of(repo, f):
+            for g in call_targets(repo, f, c):
+                if g not in seen:
+                    work.append(g)
+    return seen
+
+
+def may_reach(repo: Repo, site_fn: Func, call: ast.Call, names: Set[str], limit: int = 600) -> bool:
+    """May executing `call` (made inside site_fn) reach a call of one of `names`? Over-approximate: name-resolved
+    targets; True when the exploration bound is exceeded."""
+    nm = call.func.attr if isinstance(call.func, ast.Attribute) else getattr(call.func, "id", None)
+    if nm in names:
+        return True
+    seen: Set[Func] = set()
+    work = list(call_targets(repo, site_fn, call))
+    while work:
+        f = work.pop()
+        if f in seen:
+            continue
+        seen.add(f)
+        if len(seen) > limit:
+            return True
+        for c in _calls_of(repo, f):
+            n2 = c.func.attr if isinstance(c.func, ast.Attribute) else getattr(c.func, "id", None)
+            if n2 in names:
+                return True
+            for g in call_targets(repo, f, c):
+                if g not in seen:
+                    work.append(g)
+    return False
+
+
+def rule_state_lineage(ctx: Ctx, clause: str, funcs: Iterable[Func], rule="DU.state-lineage", relevant: Callable[[Func, ast.Call], bool] = None):
     """On every non-failing return path: each state-producing call that ran and whose success was established must lie
     on the lineage of the returned state. A result committed to an OLDER state silently discards what the newer one
     contained (the un-assignment done by an exit, a payment, a released plug)."""
@@ -753,6 +925,8 @@ def rule_state_lineage(ctx: Ctx, clause: str, funcs: Iterable[Func], rule="DU.st
             lin = {ast.dump(c) for c in state_lineage(p.value, producers)}
             if not lin and not isinstance(p.value, (ast.Call, ast.Tuple, ast.Subscript)):
                 continue
+            if not any((not e.deferred) and e.name in producers for e in p.events):
+                continue
             facts = p.facts()
             for e in p.events:
                 if e.deferred or e.name not in producers:
@@ -761,16 +935,22 @@ def rule_state_lineage(ctx: Ctx, clause: str, funcs: Iterable[Func], rule="DU.st
                 # success established: error slot tested falsy / value slot tested present / Result unwrapped
                 err = ast.dump(ast.Subscript(value=e.call, slice=ast.Constant(value=0), ctx=ast.Load()))
                 st = ast.dump(ast.Subscript(value=e.call, slice=ast.Constant(value=1), ctx=ast.Load()))
-                ok_est = False
+                ok_est = absent = False
                 for a, pol in facts:
                     da = ast.dump(a.args[0]) if flow.is_syn(a, "$isnone") else ast.dump(a)
                     if flow.is_syn(a, "$isnone"):
                         if (da == err and pol is True) or (da == st and pol is False):
                             ok_est = True
+                        if da == st and pol is True:
+                            absent = True
                     elif (da == err and pol is False) or (da == st and pol is True):
                         ok_est = True
-                if not ok_est:
-                    continue
+                    elif da == st and pol is False:
+                        absent = True
+                if not ok_est or absent:
+                    continue  # the call refused (no state) on this path: there is nothing of it to carry
+                if relevant is not None and d not in lin and not relevant(fn, e.call):
+                    continue  # what this call can change is not this property's business
                 n += 1
                 key = (e.raw.lineno, p.lineno)
                 if key in reported:
